@@ -889,6 +889,12 @@ func runC02(e *Env) error {
 		j := jobs[i]
 		check(j.d, j.id, j.base, j.edited, j.expect, map[string]any{"dialect": j.d, "case": j.id, "from": j.base, "to": j.edited, "expect": j.expect})
 	})
+	c02CLI(e)
+	c02Charset(e, func(kind, sig, what, chk string, rep any) {
+		mu.Lock()
+		e.Res.Violate(kind, sig, what, chk, rep)
+		mu.Unlock()
+	}, &mu)
 	c02Skip(e, pool, func(kind, sig, what, chk string, rep any) {
 		mu.Lock()
 		e.Res.Violate(kind, sig, what, chk, rep)
